@@ -39,7 +39,7 @@ Print Assumptions C06_error_event.
 Example C06_nonvacuous :
   let streams := [{| s_task := "a"; s_coll := 101; s_name := "c1"; s_pch := "p"; s_ch := "q"; s_len := 6 |};
                   {| s_task := "b"; s_coll := 102; s_name := "c2"; s_pch := "p"; s_ch := "q"; s_len := 6 |}] in
-  let ls := [Feed 0 None false; Feed 1 None false; Feed 0 None false; Feed 1 (Some 1) false] in
+  let ls := [Feed 0 false None false; Feed 1 false None false; Feed 0 false None false; Feed 1 false (Some 1) false] in
   let s := run 2 streams ls in
   running s = [("a", false); ("b", true)] /\ wfails s = [(0, 1)] /\ List.length (acks s) = 2
   /\ check_C06 {| c_max := 2; c_streams := streams; c_labels := ls; c_obs := run_obs 2 streams (init streams) ls |} = true.
